@@ -140,7 +140,7 @@ func (ex *Exec) addPanic(fr *Frame, cond *Term, kind string, pos token.Pos) {
 	p := ex.prog.Fset.Position(pos).String()
 	ex.obls = append(ex.obls, &Obligation{Label: kind + "@" + shortPos(p), Kind: "panic", Guard: And(fr.guard, Not(ex.panicked)),
 		Bad: And(c, Not(ex.panicked)), Assumps: append([]*Term(nil), ex.assumptions...), Pos: p})
-	ex.panicked = Or(ex.panicked, c)
+	// (panic obligations are discharged separately; once all are unsat, not-panicked is implied, so it is not conjoined to later guards)
 }
 
 func shortPos(p string) string {
@@ -305,7 +305,7 @@ func (ex *Exec) execLoop(fr *Frame, L *Loop) {
 			ex.obls = append(ex.obls, &Obligation{Label: "unwind-loop@" + fr.fn.Name() + ":" + shortPos(p), Kind: "unwind",
 				Guard: True, Bad: And(g, Not(ex.panicked)), Assumps: append([]*Term(nil), ex.assumptions...), Pos: p})
 			// paths that would iterate further are cut (treated like a panic for later assertions)
-			ex.panicked = Or(ex.panicked, g)
+			// paths beyond the bound are excluded by the unwinding assertion above
 			delete(fr.incoming, L.header)
 			return
 		}
@@ -403,7 +403,7 @@ func (ex *Exec) callFunction(fn *ssa.Function, args []Value, bindings []Value, g
 		p := ex.prog.Fset.Position(pos).String()
 		ex.obls = append(ex.obls, &Obligation{Label: "unwind-rec@" + fn.Name(), Kind: "unwind", Guard: True,
 			Bad: And(guard, Not(ex.panicked)), Assumps: append([]*Term(nil), ex.assumptions...), Pos: p})
-		ex.panicked = Or(ex.panicked, guard)
+		// see unwinding assertion above
 		return ex.zeroResults(fn.Signature)
 	}
 	ex.calls++
@@ -637,19 +637,33 @@ func keyEq(a, b Value) *Term { return EqV(a, b) }
 func (ex *Exec) mapLookup(m RefV, key Value, vt types.Type) (Value, *Term) {
 	val := ZeroValue(vt)
 	found := False
+	_, isRef := val.(RefV)
+	var alts []Alt
 	for _, a := range m.Alts {
 		mt, ok := a.Tgt.(MapT)
 		if !ok {
 			panic(unsupported("map lookup on %T", a.Tgt))
 		}
+		mt.M = mt.M.resolve()
 		for _, e := range mt.M.entries {
 			hit := And(a.C, e.Live, keyEq(e.Key, key))
 			if hit.IsFalse() {
 				continue
 			}
-			val = MergeV(hit, e.Val, val)
+			if isRef {
+				// live keys are pairwise distinct, so hits are mutually exclusive: the union is
+				// built without priority negations
+				for _, va := range e.Val.(RefV).Alts {
+					alts = addAlt(alts, And(hit, va.C), va.Tgt)
+				}
+			} else {
+				val = MergeV(hit, e.Val, val)
+			}
 			found = Or(found, hit)
 		}
+	}
+	if isRef {
+		return RefV{Alts: alts}, found
 	}
 	return val, found
 }
@@ -658,11 +672,28 @@ func (ex *Exec) mapUpdate(fr *Frame, m RefV, key, val Value, pos token.Pos) {
 	ex.addPanic(fr, m.IsNilTerm(), "nil-map-write", pos)
 	for _, a := range m.Alts {
 		mt := a.Tgt.(MapT)
+		mt.M = mt.M.resolve()
 		g := And(fr.guard, a.C)
 		if g.IsFalse() {
 			continue
 		}
 		anyHit := False
+		// same key term as an existing slot: update that slot (it is live afterwards)
+		sameSlot := false
+		for _, e := range mt.M.entries {
+			if sameKeyTerm(e.Key, key) {
+				if rv := ex.recycleMap(a.C, g, e, val); rv != nil {
+					val = rv
+				}
+				e.Val = MergeV(g, val, e.Val)
+				e.Live = Or(e.Live, g)
+				sameSlot = true
+				break
+			}
+		}
+		if sameSlot {
+			continue
+		}
 		for _, e := range mt.M.entries {
 			hit := And(e.Live, keyEq(e.Key, key))
 			if hit.IsFalse() {
@@ -678,9 +709,90 @@ func (ex *Exec) mapUpdate(fr *Frame, m RefV, key, val Value, pos token.Pos) {
 	}
 }
 
+// impliesNot: g syntactically implies not t (a conjunct of g is not(t) or not(or(.. t ..))).
+func impliesNot(g, t *Term) bool {
+	conj := []*Term{g}
+	if g.op == "and" {
+		conj = g.args
+	}
+	for _, x := range conj {
+		if x.op != "not" {
+			continue
+		}
+		y := x.args[0]
+		if y == t {
+			return true
+		}
+		if y.op == "or" {
+			for _, z := range y.args {
+				if z == t {
+					return true
+				}
+			}
+		}
+	}
+	return false
+}
+
+// recycleMap: the lookup-or-create idiom `if m[k] == nil { m[k] = map[..]..{} }` executed in a
+// loop allocates one map per iteration, all but one dead on any given path. When the slot's
+// current map M_k is provably unreachable on the storing paths (the store guard contains the
+// slot's nil test), the fresh empty map is identified with M_k (whose entries are killed on
+// those paths) instead of becoming another alternative.
+func (ex *Exec) recycleMap(mapCond, g *Term, e *MapEntry, val Value) Value {
+	nv, ok := val.(RefV)
+	if !ok || len(nv.Alts) != 1 || !nv.Alts[0].C.IsTrue() {
+		return nil
+	}
+	nm, ok := nv.Alts[0].Tgt.(MapT)
+	if !ok || len(nm.M.entries) != 0 || nm.M.fwd != nil {
+		return nil
+	}
+	old, ok := e.Val.(RefV)
+	if !ok {
+		return nil
+	}
+	for _, oa := range old.Alts {
+		om, ok := oa.Tgt.(MapT)
+		if !ok || om.M == nm.M || om.M.typ != nm.M.typ {
+			continue
+		}
+		t := And(mapCond, e.Live, oa.C)
+		if !impliesNot(g, t) {
+			if ex.trace {
+				fmt.Printf("RECYCLE-NO key=%v t=%s\n   g=%s\n", e.Key, t.Pretty(3), g.Pretty(3))
+			}
+			continue
+		}
+		if om.M.created != nil && !(om.M.created == oa.C || impliesNot(g, om.M.created)) {
+			continue
+		}
+		ng := Not(g)
+		for _, oe := range om.M.entries {
+			oe.Live = And(oe.Live, ng)
+		}
+		nm.M.fwd = om.M
+		return Ref1(MapT{M: om.M})
+	}
+	return nil
+}
+
+func sameKeyTerm(a, b Value) bool {
+	switch x := a.(type) {
+	case StrV:
+		y, ok := b.(StrV)
+		return ok && x.T == y.T
+	case IntV:
+		y, ok := b.(IntV)
+		return ok && x.T == y.T
+	}
+	return false
+}
+
 func (ex *Exec) mapDelete(fr *Frame, m RefV, key Value) {
 	for _, a := range m.Alts {
 		mt := a.Tgt.(MapT)
+		mt.M = mt.M.resolve()
 		g := And(fr.guard, a.C)
 		if g.IsFalse() {
 			continue
@@ -699,6 +811,7 @@ func (ex *Exec) mapLen(m RefV) *Term {
 	n := BVC(0, 64)
 	for _, a := range m.Alts {
 		mt := a.Tgt.(MapT)
+		mt.M = mt.M.resolve()
 		for _, e := range mt.M.entries {
 			n = BVBin("bvadd", n, Ite(And(a.C, e.Live), BVC(1, 64), BVC(0, 64)))
 		}
@@ -742,8 +855,23 @@ func sliceMaxLen(s RefV) int {
 	return m
 }
 
-// termUpper: syntactic upper bound of a BV term built from ite/const/+const.
+// termUpper: syntactic upper bound of a BV term built from ite/const/+const (memoised).
+var upperMemo = map[*Term][2]int{}
+
 func termUpper(t *Term) (int, bool) {
+	if r, ok := upperMemo[t]; ok {
+		return r[0], r[1] == 1
+	}
+	v, ok := termUpper1(t)
+	b := 0
+	if ok {
+		b = 1
+	}
+	upperMemo[t] = [2]int{v, b}
+	return v, ok
+}
+
+func termUpper1(t *Term) (int, bool) {
 	switch t.op {
 	case "const":
 		return int(t.SVal()), true
